@@ -66,3 +66,17 @@ theorem RT_guard (found : Option (Router.Route × Router.Params)) (method : Byte
           exact ⟨r, e, by rw [h.2], hm, h.1, by intro a' h'; rw [ha] at h'; cases h'; exact hc⟩
 
 end Via
+
+namespace Via
+
+/-- `Route::search_path` and `Route::has_parameters` of the translated constructor = the model's -/
+theorem RT_searchPath (r : Router.Route) : GenRouter.searchPath r.path = r.searchPath := by
+  unfold GenRouter.searchPath Router.Route.searchPath
+  simp only []
+  cases findByte 58 r.path <;> rfl
+
+theorem RT_hasParameters (r : Router.Route) :
+    GenRouter.hasParameters r.path (GenRouter.searchPath r.path) = r.hasParameters := by
+  rw [RT_searchPath]; rfl
+
+end Via
